@@ -380,6 +380,39 @@ pub fn fmt_observe(src: &str) -> Value {
 // serve: JSON lines in, JSON lines out
 // ---------------------------------------------------------------------------------------------------------------
 
+/// Type-check `src` with the given dependency modules in scope (as the CLI does for the entry file of a multi-file project)
+/// and validate every diagnostic against the entry text: all of them are rendered against that text.
+fn project_observe(src: &str, deps: Vec<Value>, uri: &Url) -> Value {
+    use incan::frontend::typechecker::TypeChecker;
+    let main = match catch(|| parse_src(src)) {
+        Ok(Ok(a)) => a,
+        Ok(Err(m)) => return json!({"parses": false, "why": m}),
+        Err(m) => return json!({"parses": false, "why": format!("panic: {m}")}),
+    };
+    let mut parsed = Vec::new();
+    for d in &deps {
+        let name = d["name"].as_str().unwrap_or("dep").to_string();
+        match catch(|| parse_src(d["src"].as_str().unwrap_or(""))) {
+            Ok(Ok(a)) => parsed.push((name, a)),
+            _ => return json!({"parses": false, "why": format!("dependency {name} does not parse")}),
+        }
+    }
+    let dep_refs: Vec<(&str, &incan_syntax::ast::Program)> = parsed.iter().map(|(n, a)| (n.as_str(), a)).collect();
+    let res = catch(|| {
+        let mut tc = TypeChecker::new();
+        tc.check_with_imports(&main, &dep_refs)
+    });
+    match res {
+        Err(m) => json!({"parses": true, "panic": m}),
+        Ok(Ok(())) => json!({"parses": true, "ok": true, "errs": [], "problems": []}),
+        Ok(Err(errs)) => {
+            let problems: Vec<String> = errs.iter().filter_map(|e| diag_problem(src, e, uri)).collect();
+            let list: Vec<Value> = errs.iter().map(|e| json!([e.message, e.span.start, e.span.end])).collect();
+            json!({"parses": true, "ok": false, "errs": list, "problems": problems})
+        }
+    }
+}
+
 pub fn run_serve(_args: &[String]) {
     let uri = Url::parse("file:///f.incn").expect("url");
     let stdin = std::io::stdin();
@@ -420,6 +453,7 @@ pub fn run_serve(_args: &[String]) {
                 Err(m) => json!({"parses": false, "why": format!("panic: {m}")}),
             },
             "types" => crate::typing::types_observe(src),
+            "project" => project_observe(src, req.get("deps").and_then(|v| v.as_array()).cloned().unwrap_or_default(), &uri),
             _ => json!({"error": format!("unknown op {}", jstr(op))}),
         };
         if let Some(o) = resp.as_object_mut() {
